@@ -146,6 +146,37 @@ fn c02_crc16_matches_rfc() {
     kani::cover!(n == 0);
 }
 
+/// `ChannelAssignment::write`: 4 bits, `n - 1` for n independent channels (1..=8), 8/9/10 for
+/// left-side / side-right / mid-side; more than 8 channels is an error; count_bits == 4.
+//@ unit props=C02,C08 tier=quick kind=complete timeout=300 funcs="ChannelAssignment::write; ChannelAssignment::count_bits"
+#[kani::proof]
+#[kani::unwind(10)]
+#[kani::stub(std::fmt::format, stub_format)]
+fn c02_channel_assignment_write() {
+    let n: u8 = kani::any();
+    kani::assume(n >= 1);
+    let mut s = SpecSink::new();
+    let r = ChannelAssignment::Independent(n).write(&mut s);
+    if n > 8 {
+        assert!(r.is_err());
+        assert!(s.id.len == 0);
+    } else {
+        assert!(r.is_ok());
+        assert!(s.id.len == 4 && (s.id.w[0] >> 60) as u8 == n - 1);
+    }
+    let mut s = SpecSink::new();
+    assert!(ChannelAssignment::LeftSide.write(&mut s).is_ok());
+    assert!(s.id.len == 4 && (s.id.w[0] >> 60) == 8);
+    let mut s = SpecSink::new();
+    assert!(ChannelAssignment::RightSide.write(&mut s).is_ok());
+    assert!(s.id.len == 4 && (s.id.w[0] >> 60) == 9);
+    let mut s = SpecSink::new();
+    assert!(ChannelAssignment::MidSide.write(&mut s).is_ok());
+    assert!(s.id.len == 4 && (s.id.w[0] >> 60) == 10);
+    assert!(ChannelAssignment::MidSide.count_bits() == 4);
+    assert!(ChannelAssignment::Independent(n).count_bits() == 4);
+}
+
 // ================================================================================================
 // Frame header: RFC 9639 section 9.1 layout, reserved bits, CRC-8, count_bits
 // ================================================================================================
@@ -175,11 +206,9 @@ fn c02_header_body<const L: usize, const BE: usize, const RE: usize>(
     // the channel-assignment VARIANT is concrete per call (a symbolic variant merges differently
     // typed sink calls and makes the buffer length symbolic); the channel count is symbolic.
     let (ca, ch_tag): (ChannelAssignment, u8) = match ch_variant {
-        0 => {
-            let n: u8 = kani::any();
-            kani::assume(1 <= n && n <= 8);
-            (ChannelAssignment::Independent(n), n - 1)
-        }
+        // (symbolic channel counts: unit c02_channel_assignment_write)
+        0 => (ChannelAssignment::Independent(2), 1),
+        4 => (ChannelAssignment::Independent(8), 7),
         1 => (ChannelAssignment::LeftSide, 8),
         2 => (ChannelAssignment::RightSide, 9),
         _ => (ChannelAssignment::MidSide, 10),
